@@ -18,7 +18,7 @@ from elementpath.exceptions import ElementPathValueError
 from elementpath.datatypes import AnyAtomicType
 from elementpath.sequences import xlist
 from elementpath.helpers import split_function_test
-from elementpath.sequence_types import match_sequence_type
+from elementpath.sequence_types import is_sequence_type_restriction, match_sequence_type
 from elementpath.xpath_context import XPathSchemaContext
 from .functions import XPathFunction
 
@@ -249,11 +249,12 @@ class XPathMap(XPathFunction):
             return False
 
         key_st, value_st = sequence_types
-        if key_st.endswith(('+', '*')):
+        # A map is a function(xs:anyAtomicType) as V?: the parameter type of the test
+        # has to be a subtype of xs:anyAtomicType, the result type must admit every value.
+        if not is_sequence_type_restriction('xs:anyAtomicType', key_st):
             return False
         elif value_st != 'empty-sequence()' and not value_st.endswith(('?', '*')):
             return False
         else:
-            return any(match_sequence_type(k, key_st, self.parser, False) and
-                       match_sequence_type(v, value_st, self.parser)
-                       for k, v in self.items())
+            return all(match_sequence_type(v, value_st, self.parser)
+                       for v in self.values())
